@@ -165,7 +165,7 @@ func (p Proxy) ServeHTTP(w http.ResponseWriter, r *http.Request) (int, error) {
 	start := time.Now()
 	keepRetrying := func(backendErr error) bool {
 		// if downstream has canceled the request, break
-		if backendErr == context.Canceled {
+		if backendErr == context.Canceled || outreq.Context().Err() == context.Canceled {
 			return false
 		}
 		// if we've tried long enough, break
@@ -299,7 +299,11 @@ func (p Proxy) ServeHTTP(w http.ResponseWriter, r *http.Request) (int, error) {
 			return http.StatusRequestEntityTooLarge, backendErr
 		}
 
-		if backendErr == context.Canceled {
+		// When the client goes away in the middle of its upload, the
+		// transport returns either the context's error or the error of
+		// reading the body, whichever it sees first; both mean the same:
+		// the client is gone, which is not a failure of the backend.
+		if backendErr == context.Canceled || outreq.Context().Err() == context.Canceled {
 			return CustomStatusContextCancelled, backendErr
 		}
 
